@@ -264,6 +264,9 @@ def _g(env):
     return g
 
 
+NATIVE_CALL_LIMIT = 10
+
+
 def native_check(c, kwargs, extra_env=None, universe=None):
     """call the real function on kwargs; returns (failed clause names, outcome description).
     The precondition is checked first: inputs outside it return None.
@@ -303,7 +306,13 @@ def native_check(c, kwargs, extra_env=None, universe=None):
     fn = real_function(c.target)
     failed = []
     try:
-        result = fn(**kwargs)
+        # the real function runs under a CPU-time guard: a change that makes it loop must not hang the checker
+        from bounded.common import time_limit, Timeout
+        try:
+            with time_limit(NATIVE_CALL_LIMIT):
+                result = fn(**kwargs)
+        except Timeout:
+            return ["does not return (no result within %d s of CPU time)" % NATIVE_CALL_LIMIT], "did not return"
         raised = None
     except Exception as e:  # noqa
         raised = e
